@@ -15,7 +15,7 @@ CONTROL = ["allow_write", "enter", "exit", "exit_exn", "copy_switch", "clobber",
 MUTATORS = ["add_block", "add_block_dup", "remove_block", "remove_absent", "replace_block", "replace_equal", "set_equal",
             "set_data3D", "set_force_and_torque", "set_force_platforms_data", "set_events", "set_emg"]
 READERS = ["blocks", "get_block_index", "get_block_type", "getitem", "data3D", "events", "emg", "has_data3D",
-           "has_events", "len", "nBytes", "eq", "repr", "copy"]
+           "has_events", "len", "nBytes", "eq", "eq_unreadable", "repr", "copy"]
 PLAIN = {"len", "nBytes", "copy"}
 ALPHABET = CONTROL + MUTATORS + READERS
 
@@ -32,6 +32,14 @@ class Session:
         self.t2 = Tdf(self.other)
         with self.t2:               # the right operand of == has been opened before: == then depends on self.t alone
             pass
+        # a right operand whose file cannot be opened (not a TDF file / no longer there): the comparison raises
+        self.unreadable = os.path.join(work, "o%d_unreadable.tdf" % idx)
+        shutil.copyfile(os.path.join(work, "base.tdf"), self.unreadable)
+        self.t3 = Tdf(self.unreadable)
+        if idx % 2:
+            open(self.unreadable, "wb").write(b"this is not a TDF file " * 20)
+        else:
+            os.unlink(self.unreadable)
         self.rng = rng
         self.saved = None            # the TDF bytes while the file is clobbered
 
@@ -140,7 +148,7 @@ def perform(sess, name):
         mcall = [5, 1 if attr == "data3D" else 2, 1]
         thunk = lambda: setattr(t, attr, spec(kind, 0))
     else:
-        kindcode = 1 if name in PLAIN else 2 if name == "eq" else 0
+        kindcode = 1 if name in PLAIN else 2 if name == "eq" else 3 if name == "eq_unreadable" else 0
         mcall = [6, kindcode]
         if name == "blocks":
             thunk = lambda: t.blocks
@@ -156,6 +164,8 @@ def perform(sess, name):
             thunk = lambda: len(t)
         elif name == "eq":
             thunk = lambda: t == sess.t2
+        elif name == "eq_unreadable":
+            thunk = lambda: t == sess.t3
         elif name == "repr":
             thunk = lambda: repr(t)
         elif name == "copy":
@@ -350,8 +360,8 @@ def run(chk):
     chk.extra["exhaustive_tail_length"] = L
     chk.extra["prefix_modes"] = len(prefixes)
     chk.rule = ("call sequences on a Tdf object over a file holding one block: every tail of length <= L (stated in "
-                "exhaustive_tail_length) over the 33-call alphabet {allow_write, enter, exit, exit-by-exception, continue with the object copy() returns, somebody replaces the file by non-TDF bytes / puts it back (only while no context is open)} + 12 mutator "
-                "requests (add valid/duplicate, remove present/absent, replace with another / with equal content, the five setters, a setter with equal content) + 14 readers, after each of 21 "
+                "exhaustive_tail_length) over the 34-call alphabet {allow_write, enter, exit, exit-by-exception, continue with the object copy() returns, somebody replaces the file by non-TDF bytes / puts it back (only while no context is open)} + 12 mutator "
+                "requests (add valid/duplicate, remove present/absent, replace with another / with equal content, the five setters, a setter with equal content) + 15 readers (incl. == with an operand whose file cannot be opened), after each of 21 "
                 "prefix modes (no context; allow_write only; read-only context; write context; re-entered after a write context; "
                 "after exit by exception; re-entered after that; allow_write inside a read-only context; allow_write consumed by "
                 "a reader; after a successful write session; on a copy taken with the permission pending, taken inside a write context, and entered after that; with-blocks nested on the one object (a write block inside a read block and left again; a read block inside a write block; a third block opened after that); with the file clobbered — before any context, after one, with the permission pending, after a refused reader and restored, after a refused reader, restored and entered), plus random sequences of 3-12 calls; observed after each call: "
